@@ -609,6 +609,38 @@ def run_container_case(run: Run, ops, intents, shapes, meta, tmpdir, rng):
                 w = jb._individual_parameters[i][p]
                 if isinstance(v, list) != isinstance(w, list):
                     run.fail("json-roundtrip:shapes", f"{p}: scalar/list form changed by json", inp)
+    # json written with other json.dump options (save forwards its keyword arguments): the file lists the individuals in another order
+    # than `indices`; identifiers and values must still go together in every form read back
+    if jb is not None and nonempty:
+        try:
+            base_ids, base_t = ip.to_pytorch()
+        except Exception:
+            base_ids = None
+        if base_ids is not None:
+            pj2 = os.path.join(tmpdir, "c_sorted.json")
+            try:
+                if os.path.exists(pj2):
+                    os.remove(pj2)
+                ip.save(pj2, sort_keys=True, indent=None)
+                jb2 = IP.load(pj2)
+                ids2, t2 = jb2.to_pytorch()
+                run.count("json_sorted_keys", "compared" if list(base_ids) != sorted(base_ids) else "compared (ids already sorted)")
+                if list(ids2) != list(base_ids) or set(t2) != set(base_t) or any(not torch.equal(t2[k], base_t[k]) for k in base_t):
+                    run.fail("json-sorted-keys:identifiers-and-values-misaligned",
+                             "after save(json, sort_keys=True) / load, to_pytorch() does not give the identifiers with their own values", inp,
+                             expected=dict(ids=list(base_ids), first={k: v[0].tolist() for k, v in base_t.items()}),
+                             observed=dict(ids=list(ids2), first={k: v[0].tolist() for k, v in t2.items()}))
+                try:
+                    d0 = ip.to_dataframe()
+                except Exception:
+                    d0 = None          # the table form of this container is itself refused (listed findings): nothing to compare
+                if d0 is not None:
+                    d2 = jb2.to_dataframe()
+                    cols = sorted(d0.columns)      # sort_keys also re-orders the parameter names in the file: column order is not compared
+                    if list(d0.index) != list(d2.index) or sorted(d2.columns) != cols or not d0[cols].equals(d2[cols]):
+                        run.fail("json-sorted-keys:table-differs", "after save(json, sort_keys=True) / load, to_dataframe() differs", inp)
+            except Exception as ex:  # noqa
+                run.fail(f"json-sorted-keys:raises:{type(ex).__name__}", f"save(json, sort_keys=True) / load / convert raised {type(ex).__name__}: {ex}", inp)
     # csv
     pc = os.path.join(tmpdir, "c.csv")
     c_l, cb, e1 = res_lit(lambda: via(pc), container_lit)
